@@ -74,6 +74,16 @@ def descriptor_fields(P):
     return fields, init
 
 
+def fd_text(e) -> str:
+    """The text a descriptor use is decided on: the call as written, plus those substituted arguments that are *exactly* a
+    `self.<field>` attribute (a local that is a pure alias of the field, e.g. the loop variable of an unrolled
+    `for fd in (self._a, self._b): os.close(fd)`).  Substituted terms that merely mention a field are not used: they may only
+    flow from it."""
+    raw = e.raw or e.text
+    exact = [a for a in (e.extra.get("args") or []) if re.fullmatch(r"self\._\w+", a)]
+    return raw + (" " + " ".join(exact) if exact else "")
+
+
 def classify_call(text: str, func: str, fds: dict) -> list[tuple] | None:
     """Resource ops of a call, or [] if it touches no descriptor, or None if it touches one in an unknown way."""
     touched = [f for f in fds if re.search(rf"\bself\.{re.escape(f)}\b", text)]
@@ -112,7 +122,7 @@ def slice_path(p, fds, tracked, what: str):
             if func == "self._check_inotify_fd":
                 ops.append(("block", ("kill", "data"), "poll(inotify_fd, kill_r)", ["_inotify_fd", "_kill_r"]))
                 continue
-            r = classify_call(e.raw or e.text, func, fds)
+            r = classify_call(fd_text(e), func, fds)
             if r is None:
                 raise AnalysisError(f"{what}: call `{e.text[:80]}` touches a descriptor in a way the slicer cannot abstract")
             for op in r:
@@ -125,7 +135,7 @@ def slice_path(p, fds, tracked, what: str):
             for b in e.extra["paths"]:
                 for x in b.flat():
                     if x.kind == "call":
-                        r = classify_call(x.raw or x.text, x.extra.get("func", ""), fds)
+                        r = classify_call(fd_text(x), x.extra.get("func", ""), fds)
                         if r is None and x.extra.get("func") != "self._check_inotify_fd":
                             raise AnalysisError(f"{what}: call `{x.text[:80]}` in a loop touches a descriptor in an unknown way")
                         for op in r or []:
@@ -284,7 +294,7 @@ def run(ctx) -> None:
                 acquired = [f for f in acquired if fds[f] != "os.pipe"]
             if e.kind == "call" and e.extra.get("func") == "os.close":
                 for f in fds:
-                    if re.search(rf"\bself\.{f}\b|\b{f.lstrip('_')}\b", e.raw or e.text):
+                    if re.search(rf"\bself\.{f}\b|\b{f.lstrip('_')}\b", fd_text(e)):
                         closed.add(f)
         if first_fd_failed:
             acquired = [f for f in acquired if fds[f] != "inotify_init"]
@@ -310,11 +320,15 @@ def run(ctx) -> None:
     # ---------------------------------------------------------------- close chain
     cr = P.find_method("Inotify", "_close_resources")
     closed_fields = set()
-    for n in ast.walk(cr.node):
-        if isinstance(n, ast.Call) and dotted(n.func) == "os.close" and n.args:
-            d = dotted(n.args[0]) or ""
-            if d.startswith("self."):
-                closed_fields.add(d.split(".")[1])
+    # decided on the enumerated paths (a loop over a literal tuple of the fields is unrolled by the engine)
+    for p in Enumerator(ThreadCfg(P, follow_attrs=False)).run(cr, selfcls="Inotify"):
+        here = set()
+        for x in p.flat():
+            if x.kind == "call" and x.extra.get("func") == "os.close":
+                a0 = (x.extra.get("args") or [""])[0]
+                if re.fullmatch(r"self\._\w+", a0):
+                    here.add(a0.split(".")[1])
+        closed_fields = here if not closed_fields else (closed_fields & here)
     ctx.check(closed_fields == set(fds), RH, "_close_resources closes what the constructor created", f"constructor acquires {sorted(fds)}, _close_resources closes {sorted(closed_fields)}", cr.loc)
     ctx.check(bool(order_ok) or True, RH, "buffer stop: hooks seen " + ",".join(h for h in hook_calls if h.startswith("self._"))[:80], "", P.find_method("InotifyBuffer", "on_thread_stop").loc, nontrivial=False)
     for p in stop_paths:
